@@ -279,11 +279,13 @@ def enc_string(s):
 
 
 def enc_moltext(s, calc):
+    """Header block (the three lines before the counts line: name, program +
+    timestamp, comment) is held apart from the body; only the body is digested."""
     lines = s.split("\n")
-    body = lines[:1] + lines[2:]
+    body = lines[3:]
     if calc:
         body = [_mask_coords(l) for l in body]
-    return {"t": "mol", "body": body, "l2": lines[1] if len(lines) > 1 else None}
+    return {"t": "mol", "body": body, "hdr": lines[:3]}
 
 
 _ATOMLINE = re.compile(r"^(M  V30 \d+ \S+) (\S+) (\S+) (\S+)( .*)$")
@@ -298,7 +300,7 @@ def _mask_coords(line):
 
 def digest(enc):
     if enc.get("t") == "mol":
-        enc = {"t": "mol", "body": enc["body"]}  # line 2 is compared separately
+        enc = {"t": "mol", "body": enc["body"]}  # the header block is compared separately
     return hashlib.sha256(json.dumps(enc, sort_keys=True, separators=(",", ":")).encode()).hexdigest()[:24]
 
 
@@ -964,7 +966,7 @@ def exec_op(sim, cl, i, traced):
                 enc = enc_string(res)
             else:
                 enc = enc_moltext(res, bool(base.get("calc")))
-                rec["l2"] = enc["l2"]
+                rec["hdr"] = enc["hdr"]
             rec["dg"] = digest(enc)
             if spec.get("full") or (rtype == model.STRING and len(res) < 400):
                 rec["enc"] = enc
@@ -1013,12 +1015,12 @@ def exec_op(sim, cl, i, traced):
         cl.vals[i] = res
         if kind == "again":
             first = cl.recs[bi]
-            if first["st"] == "ok" and first.get("dg") != rec["dg"]:
+            if first["st"] == "ok" and first.get("key") == key and first.get("dg") != rec["dg"]:
                 prop = "C16" if bkind == "permute" else ("C12" if bkind in ("canon", "serialize") else "C14")
                 sim.violation(prop, "repeat_differs", cl, i, bkind, key, f"first {first.get('dg')} now {rec['dg']}")
     elif rec["st"] == "exc" and kind == "again":
         first = cl.recs[bi]
-        if first["st"] in ("ok", "exc") and first.get("dg") != rec["dg"]:
+        if first["st"] in ("ok", "exc") and first.get("key") == key and first.get("dg") != rec["dg"]:
             prop = "C16" if bkind == "permute" else ("C12" if bkind in ("canon", "serialize") else "C14")
             sim.violation(prop, "repeat_differs", cl, i, bkind, key, f"first {first.get('dg')} now {rec['dg']} ({rec['enc']})")
     if bkind in model.PUBLIC_OPS or bkind == "permute":
